@@ -36,6 +36,9 @@ func (x *Exec) specEnv(s *State, old *State) *SpecEnv {
 	for k, v := range x.params {
 		env.vars[k] = v
 	}
+	for k, v := range x.entryLets {
+		env.lets[k] = v
+	}
 	if x.fn.Pkg != nil {
 		env.pkgPath = x.fn.Pkg.Pkg.Path()
 	} else if x.c != nil {
@@ -87,6 +90,14 @@ func (x *Exec) evalLet(env *SpecEnv, l *Clause) {
 		return
 	}
 	env.lets[id.Name] = env.eval(be.Y)
+	if env.fn == x.fn && env.frame == nil {
+		if x.entryLets == nil {
+			x.entryLets = map[string]Val{}
+		}
+		if _, dup := x.entryLets[id.Name]; !dup && x.inEntry {
+			x.entryLets[id.Name] = env.lets[id.Name]
+		}
+	}
 }
 
 func (env *SpecEnv) bindResults(fn *ssa.Function, ret Val) {
@@ -206,7 +217,7 @@ func (env *SpecEnv) lookupIdent(name string) (Val, bool) {
 	if v, ok := env.lets[name]; ok {
 		return v, true
 	}
-	if env.frame != nil {
+	if env.frame != nil && !env.inOld {
 		// a variable living in memory is read through its cell (the value
 		// recorded at its last use may be stale)
 		if p, ok := env.frame.names["&"+name]; ok {
@@ -217,6 +228,16 @@ func (env *SpecEnv) lookupIdent(name string) (Val, bool) {
 		if v, ok := env.frame.names[name]; ok && !env.inOld {
 			return v, true
 		}
+	}
+	if strings.HasPrefix(name, "g_") {
+		// ghost (specification-only) variable
+		st := env.cur()
+		if v, ok := st.ghost[name]; ok {
+			return v, true
+		}
+		v := Var(name+"@entry", SInt)
+		st.ghost[name] = v
+		return v, true
 	}
 	if v, ok := env.vars[name]; ok {
 		return v, true
@@ -530,8 +551,9 @@ func (env *SpecEnv) selectField(v Val, name string, e ast.Expr) Val {
 		return Int(0)
 	case *ChanV:
 		if p.Obj == nil {
-			env.errf("ghost field of nil channel")
-			return Int(0)
+			// only meaningful under a guard that excludes the nil channel
+			env.x.E.nextObj++
+			return Var(fmt.Sprintf("undefchan%d", env.x.E.nextObj), SInt)
 		}
 		cs := env.x.E.objVal(env.cur(), p.Obj).(*ChanStore)
 		switch name {
@@ -547,6 +569,14 @@ func (env *SpecEnv) selectField(v Val, name string, e ast.Expr) Val {
 			return cs.Closed
 		case "held":
 			return cs.Held
+		case "len":
+			if cs.Len != nil {
+				return cs.Len
+			}
+		case "lastCount":
+			if cs.LastCount != nil {
+				return cs.LastCount
+			}
 		}
 	case *SliceV:
 		switch name {
@@ -835,6 +865,11 @@ func (env *SpecEnv) callExpr(n *ast.CallExpr) Val {
 		want, _ := strconv.Unquote(lit.Value)
 		if fn, ok := fv.Fn.(*ssa.Function); ok {
 			return Bool(strings.Contains(fn.String(), want))
+		}
+		return TFalse
+	case "cancelled":
+		if v, ok := env.cur().ghost["cancelled"].(*Term); ok {
+			return v
 		}
 		return TFalse
 	case "allNonNil":
